@@ -19,6 +19,7 @@
 From Coq Require Import List Bool Arith QArith Permutation.
 From OV Require Import Model.Num Model.Pressure Model.Deps Proofs.LCD Proofs.Rotation Proofs.RotationGlue.
 Import ListNotations.
+Local Open Scope nat_scope.
 
 Theorem C14_scan_prefix_determined : forall (T : Type) (dep : regop -> regop -> bool) fd d (pre post : list (line (T:=T))) s,
   exists tail, scan dep fd d (pre ++ post) s = scan dep fd d pre s ++ tail /\
@@ -47,8 +48,6 @@ Proof.
 Qed.
 
 (* ------------------------------------------------------------------ the glue (Proofs/RotationGlue.v) *)
-Local Open Scope nat_scope.
-
 (* WINDOW LEMMA: if L is, up to line numbers (strip), the window [s, s + |L|) of an instruction stream f and its line numbers are
    pairwise different, then the register/flag/memory edges of create_dg L are exactly the stream edges between its positions;
    stream_E f a b depends on the instructions f a .. f b only *)
